@@ -105,6 +105,21 @@ pub mod checks {
         nums(v, 0, &mut i, &mut f);
         i && f
     }
+    /// which kinds of escape sequence a name-selector text contains (the input classes of the findings on escapes are per kind)
+    pub fn escape_kinds(t: &str) -> Vec<String> {
+        let mut out = vec![];
+        let cs: Vec<char> = t.chars().collect();
+        let mut i = 0;
+        while i + 1 < cs.len() {
+            if cs[i] == '\\' {
+                let k = match cs[i + 1] { '\\' => "backslash", '/' => "solidus", '\'' | '"' => "quote", 'u' => "unicode", 'b' | 'f' | 'n' | 'r' | 't' => "control", _ => "other" };
+                let f = format!("escape-kind:{}", k);
+                if !out.contains(&f) { out.push(f); }
+                i += 2;
+            } else { i += 1; }
+        }
+        out
+    }
     pub fn features(q: &[Segment], doc: &Value) -> Vec<String> {
         let mut f = vec![];
         if q.iter().any(seg_has_union) { f.push("multi-selector-segment".to_string()); }
@@ -112,6 +127,7 @@ pub mod checks {
         name_texts(q, &mut texts);
         if texts.iter().any(|t| t.starts_with('"')) { f.push("double-quoted-name-selector".to_string()); }
         if texts.iter().any(|t| t.contains('\\')) { f.push("escape-in-name-selector".to_string()); }
+        for t in &texts { for k in escape_kinds(t) { if !f.contains(&k) { f.push(k); } } }
         let mut names = vec![];
         doc_names(doc, &mut names);
         if names.iter().any(|n| escape_name(n) != *n) { f.push("member-name-needs-escaping".to_string()); }
@@ -169,7 +185,12 @@ pub mod checks {
         } else if !same_seq {
             rep.fail(&format!("{}.order", g), &feats_of(), w(detail()));
         } else if gp.iter().zip(wp.iter()).any(|(a, b)| a.1 != b.1) {
-            rep.fail(&format!("{}.path", g), &feats_of(), w(detail()));
+            // the findings on path text concern member names that need escaping or look quoted: the input belongs to that class only
+            // if such a name lies on the (expected) path of a node whose path is wrong, not merely somewhere in the document
+            let special = gp.iter().zip(wp.iter()).filter(|(a, b)| a.1 != b.1).all(|(_, b)| b.1.contains('\\') || b.1.contains("['\""));
+            let mut f = feats_of();
+            if !special { f.retain(|x| !x.starts_with("member-name-")); }
+            rep.fail(&format!("{}.path", g), &f, w(detail()));
         }
         if rep.samples.len() < 6 && !want.is_empty() && rep.evaluations % 997 == 1 {
             rep.samples.push(json!({"query": show(q), "doc": docv, "result": wp.iter().map(|x| x.1.clone()).collect::<Vec<_>>()}));
@@ -238,8 +259,8 @@ pub mod checks {
                         if let Some((a, b)) = only { if (qi, di) != (a, b) { continue; } }
                         else if (qi + di) % stride != 0 && di >= always() { continue; }
                         let r1 = e2e_one(q, d, d, &mut rep, "serde_json::Value", (qi, di));
-                        // quick: the second implementation on every other (query, document) pair
-                        if tier != "thorough" && only.is_none() && (qi + di) % 2 == 1 { continue; }
+                        // quick: the second implementation on every pair with a curated document, on every other pair with a random one
+                        if tier != "thorough" && only.is_none() && di >= always() && (qi + di) % 2 == 1 { continue; }
                         // C15: the same query over a second Queryable implementation of the same document
                         let j = from_value(d);
                         let r2 = e2e_one(q, &j, d, &mut rep, "kjson::J", (qi, di));
@@ -289,6 +310,21 @@ pub mod checks {
                 out.push(JpQuery::new(vec![Segment::Selector(Selector::Index(i))]));
                 out.push(JpQuery::new(vec![Segment::Selector(Selector::Slice(Some(i), Some(-i), Some(1)))]));
                 out.push(JpQuery::new(vec![Segment::Selector(Selector::Slice(None, None, Some(i)))]));
+            }
+        } else if name == "text_union" {
+            // multi-selector segments (all ordered pairs, also the same selector twice, a few triples) after `$`, `$[*]`, `$..` and `$.a`
+            let sels = vec![Selector::Name("a".into()), Selector::Name("b".into()), Selector::Index(0), Selector::Index(1), Selector::Index(-1), Selector::Wildcard,
+                            Selector::Slice(Some(0), Some(2), None), Selector::Slice(Some(1), Some(3), None), Selector::Slice(None, None, Some(-1))];
+            let mut unions: Vec<Segment> = vec![];
+            for x in &sels { for y in &sels { unions.push(Segment::Selectors(vec![x.clone(), y.clone()])); } }
+            for _ in 0..(if tier == "thorough" { 200 } else { 30 }) {
+                unions.push(Segment::Selectors(vec![sels[rng.below(sels.len())].clone(), sels[rng.below(sels.len())].clone(), sels[rng.below(sels.len())].clone()]));
+            }
+            for u in &unions {
+                out.push(JpQuery::new(vec![u.clone()]));
+                out.push(JpQuery::new(vec![Segment::Selector(Selector::Wildcard), u.clone()]));
+                out.push(JpQuery::new(vec![Segment::Descendant(Box::new(u.clone()))]));
+                out.push(JpQuery::new(vec![Segment::Selector(Selector::Name("a".into())), u.clone()]));
             }
         } else if name == "text_plain" {
             // names and indexes only ("plain paths"), depth 1..3: the queries for which a document-specific shortcut is conceivable
@@ -386,15 +422,17 @@ pub mod checks {
             }
         }
         if name == "text_arith" {
-            let d = json!([0, 1, 2]);
+          for d in [json!([0, 1, 2]), json!([[0, 1, 2], [1], []]), json!({"a": [1, 2], "b": [[1]]})] {
             for t in ["$[-9223372036854775808]", "$[9223372036854775807]", "$[-9223372036854775808:]", "$[:-9223372036854775808]", "$[::-9223372036854775808]",
-                      "$[?@[-9223372036854775808] == 1]", "$[9007199254740992]", "$[-9007199254740992]", "$[99999999999999999999]", "$[?@ == 9223372036854775807]", "$[?@ == -9223372036854775808]",
+                      "$[?@[-9223372036854775808] == 1]", "$[?@[0] == $[-9223372036854775808]]", "$[?$[0][-9223372036854775808] == 1]", "$[?@[9223372036854775807] == 1]", "$..[?@[-9223372036854775808] == 1]",
+                      "$[?count(@[-9223372036854775808]) == 1]", "$[?@[-9223372036854775808]]", "$[?length(@[-9223372036854775808:]) == 1]", "$[9007199254740992]", "$[-9007199254740992]", "$[99999999999999999999]", "$[?@ == 9223372036854775807]", "$[?@ == -9223372036854775808]",
                       "$[?@ in $]", "$[?@ size 2]", "$[?1 anyOf $.b]", "$[?@ nin $]", "$[?@ noneOf $]", "$[?@ subsetOf $]", "$[?@ ~= 'a']", "$[?@ === 1]", "$[?@ <> 1]"] {
                 rep.evaluations += 1;
                 if catch_unwind(AssertUnwindSafe(|| js_path(t, &d).is_ok())).is_err() {
                     rep.fail("text_arith.no_panic", &[], json!({"text": t, "doc": d, "detail": "panic"}));
                 }
             }
+          }
         }
         rep.samples.push(json!({"printed_queries_rejected_by_the_parser_not_reported": rejected}));
         rep
@@ -555,9 +593,10 @@ pub mod checks {
     /// process_key: the member denoted by the TEXT of a name selector, with the path of that member
     pub fn group_name_lookup(_tier: &str, _seed: u64, _only: Option<(usize, usize)>) -> Report {
         let mut rep = Report::new("name_lookup");
-        let doc = json!({"a": 1, "ab": 2, "a b": 3, "": 4, "é": 5, "a'b": 6, "\\": 7, "e\nf": 8, "\"d\"": 9, "'q'": 10, "a/b": 11, "\t": 12, "\\t": 13, "☺": 14, "a\"b": 15, "0": 16});
+        let doc = json!({"a": 1, "ab": 2, "a b": 3, "": 4, "é": 5, "a'b": 6, "\\": 7, "e\nf": 8, "\"d\"": 9, "'q'": 10, "a/b": 11, "\t": 12, "\\t": 13, "☺": 14, "a\"b": 15, "0": 16, "a\\/b": 17, "\\\\": 18, "\\/": 19, "/": 20, "'a'": 21, "\u{e9}\u{e9}": 22});
         let texts = ["a", "ab", "é", "0", "'a'", "\"a\"", "'a b'", "\"a b\"", "''", "\"\"", "'é'", "'a\\'b'", "\"a'b\"", "'\\\\'", "'e\\nf'", "'\\t'",
-                     "'\\u0061'", "'\\u263A'", "'\\u263a'", "'a\\/b'", "'a\"b'", "\"a\\\"b\"", "'zz'", "zz", "'\\\"d\\\"'"];
+                     "'\\u0061'", "'\\u263A'", "'\\u263a'", "'a\\/b'", "'a\"b'", "\"a\\\"b\"", "'zz'", "zz", "'\\\"d\\\"'",
+                     "'a\\\\/b'", "'\\\\\\\\'", "'\\\\/'", "'\\/'", "\"'a'\"", "\"'q'\"", "'\\u00E9'", "'\\u00E9\\u00E9'", "'\\u00e9'", "'a\\u0020b'", "'\\uD83D\\uDE00'"];
         for (ti, t) in texts.iter().enumerate() {
             rep.evaluations += 1;
             let want: Vec<(usize, String)> = match name_of(t) {
@@ -568,12 +607,13 @@ pub mod checks {
             let mut feats = vec![];
             if t.starts_with('"') { feats.push("double-quoted-name-selector".to_string()); }
             if t.contains('\\') { feats.push("escape-in-name-selector".to_string()); }
+            feats.extend(escape_kinds(t));
             if !want.is_empty() { rep.nontrivial += 1; }
             match got {
                 Err(_) => rep.fail("process_key.no_panic", &feats, json!({"selector_text": t, "qi": ti})),
                 Ok(g) => {
                     let (gi, wi): (Vec<usize>, Vec<usize>) = (g.iter().map(|x| x.0).collect(), want.iter().map(|x| x.0).collect());
-                    if gi != wi { rep.fail("process_key.member", &feats, json!({"selector_text": t, "qi": ti, "observed": g.iter().map(|x| &x.1).collect::<Vec<_>>(), "expected": want.iter().map(|x| &x.1).collect::<Vec<_>>()})); }
+                    if gi != wi { rep.fail(if gi.is_empty() { "process_key.member" } else { "process_key.wrong_member" }, &feats, json!({"selector_text": t, "qi": ti, "observed": g.iter().map(|x| &x.1).collect::<Vec<_>>(), "expected": want.iter().map(|x| &x.1).collect::<Vec<_>>()})); }
                     else if g != want { rep.fail("process_key.path", &feats, json!({"selector_text": t, "qi": ti, "observed": g.iter().map(|x| &x.1).collect::<Vec<_>>(), "expected": want.iter().map(|x| &x.1).collect::<Vec<_>>()})); }
                 }
             }
@@ -585,10 +625,11 @@ pub mod checks {
     pub fn group_regex(_tier: &str, _seed: u64, _only: Option<(usize, usize)>) -> Report {
         let mut rep = Report::new("regex");
         let root = json!(null);
-        let subjects = [json!("ab"), json!("xb"), json!("ax"), json!("a"), json!("b"), json!(""), json!("abc"), json!("aXb"), json!("é"), json!("a\nb"), json!("1"), json!("a.b"), json!("^a$"),
+        let subjects = [json!("ab"), json!("xb"), json!("ax"), json!("a"), json!("b"), json!(""), json!("abc"), json!("aXb"), json!("é"), json!("a\nb"), json!("1"), json!("a.b"), json!("^a$"), json!("a$"), json!("ba"), json!("bb"),
                         json!(1), json!(null), json!(true), json!(["a"]), json!({"a": "a"})];
         let patterns = [json!("a|b"), json!("a"), json!("a."), json!("^a"), json!("b$"), json!("^a$|b"), json!("[ab]+"), json!("a*"), json!(".*"), json!("\\."), json!("a\\.b"), json!("é"), json!("\\p{L}"),
-                        json!("(a|b)c?"), json!("a|ab"), json!("(a|ab)c?"), json!("a?|ab"), json!("ab|a"), json!("'"), json!("\""), json!("'é"), json!("'a'"), json!("[^a]"), json!("a{2}"), json!("("), json!("[a"), json!(1), json!(null), json!(""), json!("^$"), json!("\\^a\\$")];
+                        json!("(a|b)c?"), json!("a|ab"), json!("(a|ab)c?"), json!("a?|ab"), json!("ab|a"), json!("'"), json!("\""), json!("'é"), json!("'a'"), json!("[^a]"), json!("a{2}"), json!("("), json!("[a"), json!(1), json!(null), json!(""), json!("^$"), json!("\\^a\\$"),
+                        json!("^a|b$"), json!("^a\\$"), json!("^a|^b"), json!("^ab$"), json!("^(a|b)$"), json!("^a|b"), json!("a|b$"), json!("^a$|^b$"), json!("^.$"), json!("^a\\$|b$")];
         for (si, s) in subjects.iter().enumerate() {
             for (pi, p) in patterns.iter().enumerate() {
                 for search in [false, true] {
@@ -615,6 +656,7 @@ pub mod checks {
         let root = json!(null);
         let vals = [json!(null), json!(true), json!(false), json!(0), json!(1), json!(1.0), json!(1.5), json!(-1), json!(""), json!("a"), json!("b"), json!("ab"), json!("B"), json!("é"), json!("z"), json!("𝄞"), json!("\u{ffff}"),
                     json!([]), json!([1]), json!([1.0]), json!([1, 2]), json!([2, 1]), json!(["a"]), json!([[1]]), json!([[1.0]]), json!({}), json!({"a": 1}), json!({"a": 1.0}), json!({"a": 1, "b": 2}), json!({"b": 2, "a": 1}), json!({"a": [1]}),
+                    json!({"'a'": 1}), json!({"\"a\"": 1}), json!({"'": 1}), json!({"'a'": 1, "a": 2}), json!({"a": {"'k'": [1]}}), json!({"a": {"'k'": [1.0]}}), json!([{"'a'": 1}]), json!({"a\\/b": 1}), json!({"a/b": 1}),
                     json!(9007199254740993i64), json!(9007199254740992i64), json!(9007199254740992.0)];
         for (ai, a) in vals.iter().enumerate() {
             for (bi, b) in vals.iter().enumerate() {
